@@ -24,8 +24,11 @@ FirstFactor == {TVar, TOpen, TFunc}
 DotCount(v) == Cardinality({i \in 1..Len(v) : v[i] = 46})
 DigitSeq(v) == LET ds == SelectSeq(v, LAMBDA c : c # 46) IN [i \in 1..Len(ds) |-> ds[i] - 48]
 WellFormedNumeral(v) == DotCount(v) <= 1 /\ Len(DigitSeq(v)) >= 1
-RECURSIVE StripZeros(_)
-StripZeros(ds) == IF Len(ds) > 1 /\ Head(ds) = 0 THEN StripZeros(Tail(ds)) ELSE ds
+\* leading zeros dropped (the last digit stays); by index, not by repeated Tail
+StripZeros(ds) == IF Len(ds) <= 1 THEN ds ELSE
+                  LET nz == {i \in 1..Len(ds) : ds[i] # 0}
+                      first == IF nz = {} THEN Len(ds) ELSE CHOOSE i \in nz : \A j \in nz : i <= j
+                  IN SubSeq(ds, first, Len(ds))
 ScaleOf(v) == IF DotCount(v) = 0 THEN 0 ELSE Len(v) - (CHOOSE i \in 1..Len(v) : v[i] = 46)
 RECURSIVE ToInt(_,_)
 ToInt(ds, acc) == IF Len(ds) = 0 THEN acc ELSE ToInt(Tail(ds), acc * 10 + Head(ds))
